@@ -15,7 +15,7 @@ from fractions import Fraction
 import numpy as np
 
 from .. import coq
-from ..trees import all_specs, canon, random_spec, rational_values, spec_nodes, node_points, tree_spec, abs_spec, AbsError
+from ..trees import all_specs, spec_points, canon, random_spec, rational_values, spec_nodes, node_points, tree_spec, abs_spec, AbsError
 
 C_CONST = 1000
 TOL = 1e-9
@@ -55,7 +55,7 @@ def exact_values(spec, vals, alpha, p, sizes, c=C_CONST):
     """(prior_marg, prior_one, joint_marg, joint_one) as Fractions, from the property statement."""
     roots, outl = spec
     alpha = Fraction(alpha)
-    p = Fraction(p)
+    pl = plist(p, len(vals))
     nodes = spec_nodes(spec)
     K = len(nodes)
     crp = alpha**K
@@ -74,12 +74,13 @@ def exact_values(spec, vals, alpha, p, sizes, c=C_CONST):
         c = Fraction(c)
         topo_one *= c ** -(R - 1) / sum(c ** -(r - 1) for r in range(1, R + 1))
     oprior = Fraction(1)
-    if p != 0:
-        for r in roots:
-            for i in node_points(r):
-                oprior *= (1 - p) ** sizes[i]
-        for i in outl:
-            oprior *= p ** sizes[i]
+    for r in roots:
+        for i in node_points(r):
+            if pl[i] != 0:
+                oprior *= (1 - pl[i]) ** sizes[i]
+    for i in outl:
+        if pl[i] != 0:
+            oprior *= pl[i] ** sizes[i]
     n_samples = len(vals[0])
     G = len(vals[0][0])
     dm = d1 = Fraction(1)
@@ -96,6 +97,15 @@ def exact_values(spec, vals, alpha, p, sizes, c=C_CONST):
     return pm, p1, pm * oprior * dm * om, p1 * oprior * d1 * om
 
 
+def plist(p, n):
+    """outlier priors per data point: a scalar means the same prior for every point"""
+    return [Fraction(x) for x in p] if isinstance(p, (list, tuple)) else [Fraction(p)] * n
+
+
+def pname(p):
+    return "mixed" if isinstance(p, (list, tuple)) else str(p)
+
+
 def flog(fr):
     return math.log(fr.numerator) - math.log(fr.denominator)
 
@@ -110,9 +120,10 @@ def mk_data(vals, p, sizes):
     from phyclone.data.pyclone import compute_outlier_prob
 
     data = []
+    pl = plist(p, len(vals))
     for i, v in enumerate(vals):
         arr = np.log(np.array([[float(x) for x in row] for row in v], dtype=float))
-        op, opn = compute_outlier_prob(float(p), sizes[i])
+        op, opn = compute_outlier_prob(float(pl[i]), sizes[i])
         data.append(DataPoint(i, arr, outlier_prob=op, outlier_prob_not=opn))
     return data
 
@@ -264,9 +275,10 @@ def coq_forest(spec):
 
 def coq_data(name, vals, p, sizes):
     pts = []
+    pl = plist(p, len(vals))
     for i, v in enumerate(vals):
         rows = "; ".join("[" + "; ".join(q(x) for x in row) + "]" for row in v)
-        pts.append("mkDP %s %d [%s]" % (q(p), sizes[i], rows))
+        pts.append("mkDP %s %d [%s]" % (q(pl[i]), sizes[i], rows))
     return "Definition %s (i : nat) : dpoint := nth i [%s] (mkDP 0 1 []).\n" % (name, ";\n  ".join(pts))
 
 
@@ -317,6 +329,12 @@ def run(ctx):
     G = (n_samples, grid)
     vals = rational_values(rng, NPTS + 1, n_samples, grid)
     sizes = [rng.randint(1, 3) for _ in range(NPTS + 1)]
+    # a per-point setting: points without an outlier prior (0 is the "no prior" sentinel) next to points with different priors,
+    # as per-cluster outlier probabilities produce them (--assign-loss-prob / --user-provided-loss-prob)
+    mixed = [Fraction(0) if rng.random() < 0.4 else Fraction(rng.choice([1, 3, 5]), 20) for _ in range(NPTS + 1)]
+    mixed[0] = Fraction(0)
+    mixed[1] = Fraction(1, 4)
+    ps = ps + [tuple(mixed)]
     datas = {p: mk_data(vals, p, sizes) for p in ps}
     specs = []
     for n in range(0, 5):
@@ -385,7 +403,7 @@ def run(ctx):
                             ctx.fail(
                                 "C03:%s:spec:%s" % (k, shape),
                                 "%s = %.12g but the FS-CRP statement gives %.12g (history %s)" % (k, got[k], exp_[k], name),
-                                {"tree": spec, "alpha": str(alpha), "outlier_prob": str(p), "sizes": sizes, "values": [[[str(x) for x in r] for r in v] for v in vals], "history": name, "got": got, "expected": exp_},
+                                {"tree": spec, "alpha": str(alpha), "outlier_prob": pname(p) if not isinstance(p, tuple) else [str(x) for x in p], "sizes": sizes, "values": [[[str(x) for x in r] for r in v] for v in vals], "history": name, "got": got, "expected": exp_},
                             )
                     if not close(got["log_p"], got["both[0]"]) or not close(got["log_p_one"], got["both[1]"]):
                         ctx.fail("C03:compute_both:fused-vs-separate:%s" % shape, "fused and separate evaluation differ", {"tree": spec, "alpha": str(alpha), "got": got, "history": name})
@@ -397,11 +415,11 @@ def run(ctx):
                                 ctx.fail(
                                     "C03:%s:history:%s" % (k, shape),
                                     "%s differs between two builds of the same forest: %.12g (%s) vs %.12g (%s)" % (k, first[1][k], first[0], got[k], name),
-                                    {"tree": spec, "alpha": str(alpha), "outlier_prob": str(p), "histories": [first[0], name], "got": [first[1], got]},
+                                    {"tree": spec, "alpha": str(alpha), "outlier_prob": pname(p), "histories": [first[0], name], "got": [first[1], got]},
                                 )
                     ctx.case(n=1)
-                ctx.case(key=(spec, str(alpha), str(p)), nontrivial=(nclones >= 2 or len(spec[1]) >= 1), n=0,
-                         sample={"tree": spec, "alpha": str(alpha), "p": str(p), "log_p": want[2], "log_p_one": want[3], "histories": len(ok_hist)})
+                ctx.case(key=(spec, str(alpha), pname(p)), nontrivial=(nclones >= 2 or len(spec[1]) >= 1), n=0,
+                         sample={"tree": spec, "alpha": str(alpha), "p": pname(p), "log_p": want[2], "log_p_one": want[3], "histories": len(ok_hist)})
                 ctx.count("clones=%d" % nclones)
                 ctx.count("outliers=%d" % len(spec[1]))
                 # ---- Coq correspondence on a seeded subset (all alphas of the chosen (tree, p))
@@ -414,7 +432,7 @@ def run(ctx):
                     b = dist.compute_both_log_p_and_log_p_one(t)
                     obs = [math.exp(float(dist.log_p(t))), math.exp(float(dist.log_p_one(t))), math.exp(float(b[0])), math.exp(float(b[1]))]
                     coq_items.append("chk %s D%d %s %s %s" % (q(alpha), ps.index(p), coq_forest(spec), Rc, " ".join(qq(x) for x in obs)))
-                    coq_meta.append({"tree": spec, "alpha": str(alpha), "p": str(p), "history": name})
+                    coq_meta.append({"tree": spec, "alpha": str(alpha), "p": pname(p), "history": name})
                     pb = prior.compute_both_log_p_and_log_p_one_priors(t)
                     obs = [math.exp(float(prior.log_p(t))), math.exp(float(prior.log_p_one(t))), math.exp(float(pb[0])), math.exp(float(pb[1]))]
                     coq_items.append("chkp %s %s %s" % (q(alpha), coq_forest(spec), " ".join(qq(x) for x in obs)))
@@ -433,7 +451,7 @@ def run(ctx):
             if not close(float(d.outlier_marginal_prob), flog(ex)):
                 ctx.fail("C03:DataPoint.outlier_marginal_prob", "outlier marginal differs from the single-clone marginal", {"point": i, "got": float(d.outlier_marginal_prob), "expected": flog(ex)})
             coq_items.append("chkd (D%d %d) %s %s %s" % (ps.index(p), i, qq(math.exp(d.outlier_prob)), qq(math.exp(d.outlier_prob_not)), qq(math.exp(float(d.outlier_marginal_prob)))))
-            coq_meta.append({"datapoint": i, "p": str(p)})
+            coq_meta.append({"datapoint": i, "p": pname(p)})
             ctx.case(n=1)
 
     # ---- boundary observation (not a verdict): outlier prior p = 1.  log(1) * size = 0.0 is the code's "no outlier prior" sentinel,
@@ -451,7 +469,7 @@ def run(ctx):
         obs_p1.append((spec, lp))
         R = np.exp(np.asarray(t.data_log_likelihood, dtype=float))
         Rc = "[" + "; ".join("[" + "; ".join(q(Fraction(float(x))) for x in row) + "]" for row in R) + "]"
-        coq_items.append("chki %s D2 %s %s %s %s" % (q(Fraction(5, 2)), coq_forest(spec), Rc, qq(math.exp(lp)), qq(math.exp(lp1))))
+        coq_items.append("chki %s D3 %s %s %s %s" % (q(Fraction(5, 2)), coq_forest(spec), Rc, qq(math.exp(lp)), qq(math.exp(lp1))))
         coq_meta.append({"tree": spec, "p": "1", "boundary": True})
     ctx.extra["boundary_p_equals_1"] = {
         "trees_with_a_clone_probed": len(obs_p1),
@@ -485,6 +503,65 @@ def run(ctx):
     ctx.case(n=n_pairs)
     ctx.extra["eq_hash_pairs"] = n_pairs
     ctx.count("eq/hash pairs", n_pairs)
+
+    # ---- __eq__ / __hash__ along edit histories: hash and compare after EVERY edit step (a memoised hash or key must never
+    # survive an edit), against a freshly built tree of the same forest
+    n_hist = 0
+    hist_specs = [sp for sp in specs[:n_enum] if 1 <= len(spec_points(sp)) <= 4]
+    rng.shuffle(hist_specs)
+    data0 = datas[ps[0]]
+    extra0 = data0[NPTS]
+    for spec in hist_specs[: (60 if ctx.quick else 400)]:
+        t = build_one_at_a_time(spec, data0, G, rng)
+        hash(t)
+
+        def check(step):
+            s2 = abs_spec(t)
+            pts = sorted(spec_points(s2))
+            fresh = build_children_first(s2, data0, G)
+            if hash(t) != hash(fresh) or not (t == fresh) or hash(t.copy()) != hash(fresh):
+                ctx.fail("C03:Tree.__hash__:after-edit:%s" % step.split(":")[0], "after the edit step '%s' the tree %s a freshly built tree of the same forest" % (step, "hashes differently from" if t == fresh else "does not equal"),
+                         {"start": spec, "step": step, "forest_now": s2})
+            return pts
+
+        steps = []
+        nodes = sorted(t.nodes)
+        t.add_data_point_to_outliers(extra0); steps.append("add-outlier"); check(steps[-1])
+        t.remove_data_point_from_outliers(extra0); steps.append("remove-outlier"); check(steps[-1])
+        if nodes:
+            n = rng.choice(nodes)
+            t.add_data_point_to_node(extra0, n); steps.append("add-to-clone"); check(steps[-1])
+            t.remove_data_point_from_node(extra0, n); steps.append("remove-from-clone"); check(steps[-1])
+        # move an existing outlier into a clone and back, the way the data-point sampler does
+        if spec[1] and nodes:
+            d = data0[spec[1][0]]
+            n = rng.choice(nodes)
+            t.remove_data_point_from_outliers(d); steps.append("move:outlier-out"); hash(t)
+            t.add_data_point_to_node(d, n); steps.append("move:into-clone"); check(steps[-1])
+            t.remove_data_point_from_node(d, n); hash(t)
+            t.add_data_point_to_outliers(d); steps.append("move:back-to-outliers"); check(steps[-1])
+        # move a point of a clone with >= 2 points to the outliers and back (last edit = removal from the outliers' bucket)
+        big = [n for n in nodes if len(t.get_data(n)) >= 2]
+        if big:
+            n = rng.choice(big)
+            d = t.get_data(n)[0]
+            t.remove_data_point_from_node(d, n); hash(t)
+            t.add_data_point_to_outliers(d); steps.append("move:clone-to-outliers"); check(steps[-1])
+            t.remove_data_point_from_node(d, t.outlier_node_name) if rng.random() < 0.5 else t.remove_data_point_from_outliers(d)
+            steps.append("move:outliers-removal"); hash(t)
+            t.add_data_point_to_node(d, n); steps.append("move:back-to-clone"); check(steps[-1])
+        st_nodes = sorted(t.nodes)
+        if len(st_nodes) >= 2:
+            n = rng.choice(st_nodes)
+            parent = t.get_parent(n)
+            sub = t.get_subtree(n)
+            t.remove_subtree(sub); steps.append("prune"); check(steps[-1])
+            t.add_subtree(sub, parent=None if parent == "root" else parent); steps.append("regraft"); check(steps[-1])
+            t.relabel_nodes(); steps.append("relabel"); check(steps[-1])
+        n_hist += len(steps)
+        ctx.case(key=("hash-history", spec), nontrivial=len(steps) >= 4, n=len(steps))
+    ctx.extra["eq_hash_edit_steps"] = n_hist
+    ctx.count("eq/hash edit steps", n_hist)
 
     # ---- correspondence inside Coq
     header = HEADER + "".join(coq_data("D%d" % k, vals, p, sizes) for k, p in enumerate(ps + [Fraction(1)]))
